@@ -56,6 +56,7 @@ type regSys struct {
 	onStep   func(s *regSys, op Op, out Outcome, check bool) (tainted bool)
 	noOracle bool // the reference model only tracks (follows the implementation); no model comparison
 	sub      string
+	hint     int // chunk-size hint passed to PushBlobChunked / PushBlobChunkedResume
 }
 
 type c02Case struct {
@@ -139,7 +140,7 @@ func (s *regSys) exec(op Op) (out Outcome) {
 	case "DeleteTag":
 		return outcomeOf(ociregistry.Descriptor{}, s.reg.DeleteTag(ctx, op.Repo, op.Tag))
 	case "Start":
-		w, err := s.reg.PushBlobChunked(ctx, op.Repo, 0)
+		w, err := s.reg.PushBlobChunked(ctx, op.Repo, s.hint)
 		if err != nil {
 			s.handles = append(s.handles, nil)
 			return outcomeOf(ociregistry.Descriptor{}, err)
@@ -166,7 +167,7 @@ func (s *regSys) exec(op Op) (out Outcome) {
 			off = op.N
 		}
 		h.Close()
-		w, err := s.reg.PushBlobChunkedResume(ctx, up.Repo, h.ID(), off, 0)
+		w, err := s.reg.PushBlobChunkedResume(ctx, up.Repo, h.ID(), off, s.hint)
 		if err != nil {
 			return outcomeOf(ociregistry.Descriptor{}, err)
 		}
